@@ -24,5 +24,6 @@ for w in $(seq 0 $((W-1))); do
   grep -h "VIOLATION-DETAIL\|^STALL\|^panic:\|HARNESS-PANIC" $S/out/w$w.log | cut -c1-300 | head -1
   r=$(cat $S/out/w$w.rc); [ "$r" != "0" ] && rc=1
 done
+for f in $S/out/*.stall.txt; do [ -f "$f" ] && { echo "--- stall dump (goroutines in netsim/schedsim/chainsim frames):"; grep -B2 -A12 "verifsim/" "$f" | grep -v "^--$" | head -${STALL_LINES:-60}; break; }; done
 echo "RESULT rc=$rc mutant=$DIFF prop=$PROP (scratch build, $W workers x ${BUDGET}s)"
 exit $rc
